@@ -187,6 +187,18 @@ class DropletBase:
         # create a staticmethod for merging droplet data
         cls._merge_data = staticmethod(cls._make_merge_data())
 
+    def __getstate__(self):
+        return {"data": self.data}
+
+    def __setstate__(self, state):
+        # record scalars restored by pickle silently ignore item assignment, so the
+        # data is restored as a record backed by an array. This keeps droplets mutable
+        # after they have been sent to another process.
+        data = state["data"]
+        array = np.recarray(1, dtype=data.dtype)
+        array[0] = data
+        self.data = array[0]
+
     def __eq__(self, other):
         if not isinstance(other, self.__class__):
             return NotImplemented
